@@ -85,3 +85,30 @@ func (w *Writer) VerifGarbage() int {
 	}
 	return c
 }
+
+// VerifPointNames names the yield points for the harness.
+var VerifPointNames = map[int]string{
+	vpOpenLoad:     "OPEN_LOAD",
+	vpOpenCas:      "OPEN_CAS",
+	vpCloseDec:     "CLOSE_DEC",
+	vpCloseRetire:  "CLOSE_RETIRE",
+	vpCloseGC:      "CLOSE_G_C",
+	vpGCTryLock:    "G_C_TRY_LOCK",
+	vpGCUnlock:     "G_C_UNLOCK",
+	vpCollectRead:  "COLLECT_READ",
+	vpCollectSend:  "COLLECT_SEND",
+	vpDelNodePhys:  "DEL_NODE_PHYS",
+	vpDelNodeCas:   "DEL_NODE_CAS",
+	vpDelNodeFlush: "DEL_NODE_FLUSH",
+	vpWorkerRecv:   "WORKER_RECV",
+	vpWorkerNode:   "WORKER_NODE",
+	vpWorkerFlush:  "WORKER_FLUSH",
+	vpWorkerDone:   "WORKER_DONE",
+	vpFreeRecv:     "FREE_RECV",
+	vpFreeDone:     "FREE_DONE",
+	vpPutInsert:    "PUT_INSERT",
+	vpStoreFs:      "STORE_FS",
+	vpFileWrite:    "FILE_WRITE",
+	vpFileFlush:    "FILE_FLUSH",
+	vpFileClose:    "FILE_CLOSE",
+}
